@@ -129,6 +129,80 @@ P("C13", "floating-point text equals the C library rendering for every value and
                "zero padding of floats is only generated where no sign is present and the padding goes to the left (the statement does not fix its position relative to a sign)"],
   dbits={"quick": 22, "thorough": 26})
 
+_CONV_ASSUME = [
+    "reference decoder semantics (which forms are tolerated, one bad unit per undecodable unit, greedy left to right) are those written in the C02 statement",
+    "same-width aliases on this platform (utf32_to_wchar, wchar_to_utf32) are copies and are held to C01/C03 only",
+    "*_to_latin_1(..., substitute_out_of_range=false) is expected to throw exactly when a decoded value >= 0x100 remains, in every mode",
+    "under assume_valid, decoding converters are expected to give the substitute_invalid result on malformed input (what the code documents); UTF-8 -> ST::string keeps the bytes verbatim",
+    "the 2-byte wchar_t overloads are never instantiated on this platform",
+]
+
+P("C01", "well-formed text transcodes losslessly and to the standard encoding", "conv",
+  level_text=("runtime monitoring: scalar sequences are encoded by an independent reference encoder and pushed through every public conversion route (free converters with pointer/buffer/char8_t overloads, "
+              "ST::string constructors/set/operator=/from_*/to_*/to_buffer, std string and string_view overloads, literal operators) in all three modes under ASan+UBSan; every result is compared unit for unit with the reference "
+              "encoding. Thorough: every one of the 1,112,064 scalars in 13 neighbour contexts; quick: all scalars near every width boundary + a stride-61 sample; all 256 Latin-1 bytes at positions of strings of length 1..20"),
+  technique="differential runtime monitoring against reference Unicode encoders/decoders under ASan+UBSan (exhaustive over scalar values in thorough tier)",
+  rule=("a case is a scalar sequence (one scalar in 13 contexts, or a random sequence of up to 40 scalars of mixed widths) or a Latin-1 byte string, run through all routes x 3 modes; distinct by the sequence; "
+        "evaluations count library calls; trivial = none (empty sequences are part of the random set but are < 0.1%)"),
+  assumptions=_CONV_ASSUME,
+  exhaustive={"thorough": "all 1,112,064 Unicode scalar values x 13 contexts x all routes x 3 modes; all 256 Latin-1 bytes at every position of strings of length 1..20"},
+  dbits={"quick": 22, "thorough": 25})
+
+P("C02", "validation modes accept, reject and repair malformed input correctly", "conv",
+  runs=[{"build": "asan", "name": "default=check_validity", "flags": ["-DST_DEFAULT_VALIDATION=ST::check_validity", "-DVRT_EXPECT_DEFAULT=2"]},
+        {"build": "asan", "name": "default=substitute_invalid", "flags": ["-DST_DEFAULT_VALIDATION=ST::substitute_invalid", "-DVRT_EXPECT_DEFAULT=1"]},
+        {"build": "asan", "name": "default=assume_valid", "flags": ["-DST_DEFAULT_VALIDATION=ST::assume_valid", "-DVRT_EXPECT_DEFAULT=0"]}],
+  level_text=("runtime monitoring: malformed and tolerated-form inputs in each source encoding (exhaustive over short strings of a branch-covering alphabet, embedded in valid text of every width class, "
+              "every truncation, seeded mutations) run through every reading conversion in all three modes under ASan+UBSan; throw/no-throw and the repaired units are compared with the reference decoder of the statement, "
+              "repaired output is re-validated, and the build is repeated for the three ST_DEFAULT_VALIDATION settings with mode-less calls compared against the configured mode"),
+  technique="differential runtime monitoring against a reference decoder (accept/reject + repair) under ASan+UBSan, three build configurations",
+  rule=("a case is one unit sequence in one source encoding, run through every conversion reading that encoding x 3 modes (+ mode-less calls); distinct by (encoding, units); evaluations count library calls; "
+        "inputs without any bad unit or tolerated form are kept (they check 'accepted unchanged') but are the minority"),
+  assumptions=_CONV_ASSUME + ["re-validation of repaired output is required only when the input has no tolerated non-scalar form (always for UTF-8 -> UTF-8)"],
+  exhaustive={"quick": "UTF-8: all byte strings len<=3 over 20 bytes; UTF-16: all len<=4 over 9 units; UTF-32: all len<=3 over 16 values; x 3 configurations",
+              "thorough": "UTF-8: all byte strings len<=4 over 20 bytes; UTF-16: all len<=5 over 9 units; UTF-32: all len<=4 over 16 values; x 3 configurations"},
+  dbits={"quick": 23, "thorough": 26})
+
+P("C03", "conversions are total and memory-safe on arbitrary input", "conv",
+  level_text=("runtime monitoring: arbitrary unit sequences (the C02 malformed sets, every truncation of valid text, pure garbage of length 0..64, lead-byte-dense tails, empty and (nullptr,0), inputs of 64 Ki..1 Mi units) "
+              "are handed to every conversion in exact-size heap blocks without terminator under ASan+UBSan: a read past the input or a write past the result lands in a red zone, any abort/assertion/crash/hang/foreign exception "
+              "is reported through the driver, and size(), the terminator and every unit of the result are compared with the reference transcoding under the same mode (so an unwritten unit shows as a mismatch)"),
+  technique="sanitizer-monitored execution (ASan+UBSan, exact-size placement, assertion observer, CPU watchdog) + differential size/content check against a reference transcoder",
+  rule=("a case is one unit sequence in one source encoding through all 12 source/target pairs + aliases + ST::string members x 3 modes; distinct by (encoding, units); evaluations count library calls; nothing trivial "
+        "(empty/null inputs are a dedicated phase)"),
+  assumptions=_CONV_ASSUME + ["inputs of 256 Mi units or more are outside the property and are not run",
+                              "'no part of the result left unwritten' is observed as unit-for-unit equality with the reference on heap results that ASan pre-fills with 0xbe and in-object results that start zeroed"],
+  exhaustive={"quick": "UTF-8: all byte strings len<=3 over 20 bytes; UTF-16: all len<=4 over 9 units; UTF-32: all len<=3 over 16 values",
+              "thorough": "UTF-8: all byte strings len<=4 over 20 bytes; UTF-16: all len<=5 over 9 units; UTF-32: all len<=4 over 16 values"},
+  dbits={"quick": 23, "thorough": 26})
+
+P("C11", "formatted output equals the specified rendering of literals, fields and padding", "fmtout",
+  level_text=("runtime monitoring: ST::format runs under ASan+UBSan on generated format strings (0..4 fields, shuffled flag order, brace escapes, sequential and &N selection) with typed argument lists of "
+              "48 shapes covering every supported integer, character, boolean and string type, and its output is compared byte for byte with a reference renderer written from the statement; a single-field grid "
+              "enumerates alignment x pad x width x '#' x '+' x class over boundary magnitudes of every integer type, and precision x width x alignment x pad over strings of every length relative to them"),
+  technique="differential runtime monitoring against a reference renderer under ASan+UBSan (enumerated single-field grid + random multi-field formats)",
+  rule=("a case is (format string, typed argument list); distinct by (shape, format string bytes, expected output); evaluations count ST::format calls; nothing trivial (formats without any field are < 20% of the random phase "
+        "and still check literal copying and brace reduction)"),
+  assumptions=["padded {c} conversions are excluded (documented contract assertion)", "floating-point arguments are C13's subject and are not generated here",
+               "null const char* arguments are not generated (the statement does not define their rendering)",
+               "wide-string arguments are valid UTF-16/32 (their transcoding is C01-C03's subject)"],
+  exhaustive={"quick": "single-field grid: 3 alignments x 3 pad kinds x 5 widths x '#' x '+' x 7 classes x 31 magnitudes x 2 signs x 10 integer types; text grid: 17 string/bool types x 3 x 3 x 7 precisions x 7 widths x 40 strings",
+              "thorough": "the same grids"},
+  dbits={"quick": 23, "thorough": 26})
+
+P("C10", "the format-string parser is total and memory-safe on every format string", "fmtparse",
+  level_text=("runtime monitoring: ST::format (all four validation selectors) runs under ASan+UBSan on every string up to the stated length over the specifier alphabet, on valid fields cut at every "
+              "position, on mutated format strings and on numbers that overflow or wrap when narrowed, each with argument lists of every supported type; format strings live in exact-size heap blocks so a read "
+              "past the terminating NUL is an ASan report; the outcome monitor accepts only output / bad_format / out_of_range / invalid_argument(null) / unicode_error / the documented padded-character contract "
+              "assertion (classified in-process through the assertion observer hook) and checks that the requested validation alone decides between output and unicode_error"),
+  technique="sanitizer-monitored execution (ASan+UBSan, exact-size format strings, assertion observer, CPU watchdog) + outcome-class monitor + cross-mode consistency oracle",
+  rule=("a case is (format string, argument-list shape), run under 4 validation selectors; distinct by (shape, format bytes); evaluations count ST::format calls; nothing trivial"),
+  assumptions=["digit runs meaning more than 200000 columns of padding / precision are skipped (resource bound, DESIGN 6.8); numbers that wrap to small or negative ints are included",
+               "wide-string arguments are valid text, so unicode_error can only come from the result validation"],
+  exhaustive={"quick": "all strings len<=4 over the 19-symbol specifier alphabet x 7 argument lists x 4 validation selectors",
+              "thorough": "all strings len<=5 over the 19-symbol specifier alphabet x 7 argument lists x 4 validation selectors"},
+  dbits={"quick": 23, "thorough": 26})
+
 _PENDING = "check not registered yet in this revision of /verif (harness under construction; nothing is claimed)"
 for _p in ["C%02d" % i for i in range(1, 21)]:
     if _p not in PROPS:
